@@ -397,14 +397,16 @@ class NRun(object):
             fr = self._snaps[key] = freeze(parse_state(v))
         return fr
 
-    def rec(self, make, cb=None):
+    def rec(self, make, cb=None, co=False):
+        """a recorder; on the async class a coroutine function (that does not suspend) when `co` or when
+        the on_final callback id `cb` is listed in `desc.coro`"""
         run = self
 
         def f(*_a, **_k):
             if run.cur is not None:
                 run.cur.append(make())
             return True
-        if self.is_async and cb is not None and cb in self.d.coro:
+        if self.is_async and (co or (cb is not None and cb in self.d.coro)):
             async def g(*_a, **_k):
                 return f()
             return g
@@ -426,7 +428,7 @@ class NRun(object):
             dst = None if t['dst'] is None else d.full_name(t['dst'])
         td = {'trigger': 'e%d' % t['ev'], 'source': src, 'dest': dst,
               'before': [self.rec(lambda: ('before', ti))],
-              'after': [self.rec(lambda: ('after', ti, self.snap()))]}
+              'after': [self.rec(lambda: ('after', ti, self.snap()), co=(ti % 2 == 0))]}
         if t['cond'] is not None:
             td['conditions'] = [self.cond(t['cond'])]
         return td
@@ -435,8 +437,8 @@ class NRun(object):
         d = self.d
         nd = d.nodes[i]
         sd = {'name': seg(i), 'final': bool(nd['final']),
-              'on_enter': [self.rec(lambda: ('enter', i, self.snap()))],
-              'on_exit': [self.rec(lambda: ('exit', i))],
+              'on_enter': [self.rec(lambda: ('enter', i, self.snap()), co=(i % 2 == 1))],
+              'on_exit': [self.rec(lambda: ('exit', i), co=(i % 3 == 0))],
               'on_final': [self.rec((lambda c: (lambda: ('final', i, c, self.snap())))(c), cb=c) for c in nd['cbs']]}
         if nd['kids']:
             kids = [self.node_def(k) for k in nd['kids']]
